@@ -257,6 +257,7 @@ package cache
 // returned; entries still buffered after the pass are written as a last block; errors of that block
 // and of closing the gzip stream are returned.
 //@ func (c *Cache) writeDump [C19]
+//@   log writeDump
 //@   requires c != nil && c.backend != nil
 //@   modifies *
 //@   ensures calls(cacheRange) == 1 && arg(cacheRange, 0, 0) == c.backend
@@ -269,9 +270,31 @@ package cache
 // readDump: blocks are read until one fails; only the end marker (EOF exactly at a block boundary)
 // ends the load without error — any other read or decode error is returned to the caller.
 //@ func (c *Cache) readDump [C19]
+//@   log readDump
 //@   requires c != nil && c.backend != nil
 //@   modifies *
 //@   ensures result_1 == nil ==> calls(readBlock) >= 1 && lastret(readBlock) == errReadHeaderEOF
 //@   loop 0:
 //@     invariant c != nil
 //@     each iter_calls(readBlock) == 1 && iter_ret(readBlock, 0) == nil
+
+// The dump API (C19): GET /dump writes the dump — a gzip stream, which IS the dump format — into
+// the response body itself and declares it as opaque bytes: no content-encoding header (an HTTP
+// client would strip a layer the loader needs); POST /load_dump hands the request body itself to
+// readDump and answers 400 on any error, 200 otherwise.
+//@ func (c *Cache) Api$Get#2 [C19]
+//@   requires c != nil && c.backend != nil && w != nil
+//@   modifies *
+//@   ensures calls(writeDump) == 1 && arg(writeDump, 0, 0) == c && arg(writeDump, 0, 1).val == w.val && arg(writeDump, 0, 1).tag == w.tag
+//@   ensures ret(writeDump, 0, 1) != nil ==> calls(httpError) == 1
+//@   ensures ret(writeDump, 0, 1) == nil ==> calls(httpError) == 0
+//@   ensures calls(headerSet) <= 3
+//@   ensures calls(headerSet) >= 1 ==> lower(arg(headerSet, 0, 1)) != "content-encoding"
+//@   ensures calls(headerSet) >= 2 ==> lower(arg(headerSet, 1, 1)) != "content-encoding"
+//@   ensures calls(headerSet) >= 3 ==> lower(arg(headerSet, 2, 1)) != "content-encoding"
+//@ func (c *Cache) Api$Post [C19]
+//@   requires c != nil && c.backend != nil && w != nil && req != nil
+//@   modifies *
+//@   ensures calls(readDump) == 1 && arg(readDump, 0, 0) == c && arg(readDump, 0, 1).val == old(req.Body.val) && arg(readDump, 0, 1).tag == old(req.Body.tag)
+//@   ensures ret(readDump, 0, 1) != nil ==> calls(httpError) == 1 && arg(httpError, 0, 2) == 400 && calls(httpWriteHeader) == 0
+//@   ensures ret(readDump, 0, 1) == nil ==> calls(httpError) == 0 && calls(httpWriteHeader) == 1 && arg(httpWriteHeader, 0, 1) == 200
